@@ -104,8 +104,15 @@ func c14UnitRun(t *testing.T, p c14Unit) (res vfResult) {
 					buf.Close()
 					return
 				}
+				// the response middleware swallows this error and keeps writing what the target sends:
+				// the overflow must stay recorded whatever comes later
 				overflowed = true
-				break
+				written += c
+				continue
+			}
+			if overflowed {
+				written += c
+				continue
 			}
 			if n != c {
 				res.failf("short-write", "%s: Write accepted %d of %d bytes without error", desc, n, c)
@@ -126,7 +133,7 @@ func c14UnitRun(t *testing.T, p c14Unit) (res vfResult) {
 			}
 		}
 		if overflowed != buf.Overflowed() {
-			res.failf("overflow-flag", "%s: Write reported overflow=%v but Overflowed()=%v", desc, overflowed, buf.Overflowed())
+			res.failf("overflow-flag", "%s: a Write reported overflow=%v, after all writes Overflowed()=%v", desc, overflowed, buf.Overflowed())
 			buf.Close()
 			return
 		}
